@@ -946,3 +946,150 @@ theorem step_preserves (s : Sys) (op : Op) (c : Comp) (hk : knownCell op.kind c 
   | startupPolicy p => exact pres_startupPolicy s p c (by rintro rfl; simp [knownCell, Op.kind] at hk) h
 
 end Varpulis.RaftSync
+namespace Varpulis.RaftSync
+
+/-! ## re-synchronisation never reverts a synchronised component -/
+
+theorem sync_get_some (l : LState) (r : RState) (now : Nat) (k : String) (w' : LWorker)
+    (h : (sync l r now).workers.get k = some w') : ∃ e, r.workers.get k = some e := by
+  rw [sync_workers_get] at h
+  cases he : r.workers.get k with
+  | none => simp [he] at h
+  | some e => exact ⟨e, rfl⟩
+
+theorem sync_no_revert (l : LState) (r : RState) (now : Nat) (c : Comp) (h : CompSync c l r) :
+    NoRevert c l (sync l r now) := by
+  have h' : CompSync c (sync l r now) r := pres_tickSync ⟨l, r⟩ now c h
+  cases c with
+  | wset => intro k; rw [h' k, h k]
+  | status =>
+    intro k w w' hw hw'
+    obtain ⟨e, he⟩ := sync_get_some l r now k w' hw'
+    rw [h' k w' e hw' he, h k w e hw he]
+  | book =>
+    intro k w w' hw hw'
+    obtain ⟨e, he⟩ := sync_get_some l r now k w' hw'
+    obtain ⟨a1, a2, a3⟩ := h' k w' e hw' he
+    obtain ⟨b1, b2, b3⟩ := h k w e hw he
+    exact ⟨a1.trans b1.symm, a2.trans b2.symm, a3.trans b3.symm⟩
+  | groups => intro k; rw [h' k, h k]
+  | conns => intro k; rw [h' k, h k]
+  | policy => simp only [NoRevert]; rw [show (sync l r now).policy = r.policy from rfl]; exact h.symm
+
+/-- a coordinator that only follows (empty local view, fed by `sync_from_raft`) -/
+def followerView (r : RState) (now : Nat) : LState := sync {} r now
+
+/-- a follower's view shows, component by component, what a synchronised leader's view shows -/
+theorem follower_matches_leader (l : LState) (r : RState) (now : Nat) (c : Comp) (h : CompSync c l r) :
+    NoRevert c l (followerView r now) := by
+  have h0 : CompSync c (followerView r now) r := by
+    have : ∀ c, CompSync c (followerView r now) r := by
+      intro c
+      -- the three replaced components hold outright; the worker components because every local worker is fresh
+      cases c with
+      | wset =>
+        intro k
+        simp only [followerView, sync_workers_get]
+        cases r.workers.get k with
+        | none => rfl
+        | some e => simp [AMap.get, freshWorker, LWorker.static, RWorker.static]
+      | status =>
+        intro k w e hw he
+        simp only [followerView, sync_workers_get, he, Option.map_some, Option.some.injEq] at hw
+        subst hw; simp [AMap.get, freshWorker]
+      | book =>
+        intro k w e hw he
+        simp only [followerView, sync_workers_get, he, Option.map_some, Option.some.injEq] at hw
+        subst hw; simp [AMap.get, freshWorker]
+      | groups => intro k; rfl
+      | conns => intro k; rfl
+      | policy => rfl
+    exact this c
+  cases c with
+  | wset => intro k; rw [h0 k, h k]
+  | status =>
+    intro k w w' hw hw'
+    obtain ⟨e, he⟩ := sync_get_some {} r now k w' hw'
+    rw [h0 k w' e hw' he, h k w e hw he]
+  | book =>
+    intro k w w' hw hw'
+    obtain ⟨e, he⟩ := sync_get_some {} r now k w' hw'
+    obtain ⟨a1, a2, a3⟩ := h0 k w' e hw' he
+    obtain ⟨b1, b2, b3⟩ := h k w e hw he
+    exact ⟨a1.trans b1.symm, a2.trans b2.symm, a3.trans b3.symm⟩
+  | groups => intro k; rw [h0 k, h k]
+  | conns => intro k; rw [h0 k, h k]
+  | policy => simp only [NoRevert]; rw [show (followerView r now).policy = r.policy from rfl]; exact h.symm
+
+/-! ## histories -/
+
+/-- all operations of a history are outside the known cells of component `c` -/
+def cleanFor (c : Comp) (ops : List Op) : Bool := ops.all fun op => (knownCell op.kind c).isNone
+
+theorem run_preserves (c : Comp) (ops : List Op) (s : Sys) (hc : cleanFor c ops = true) (h : CompSync c s.l s.r) :
+    CompSync c (run s ops).l (run s ops).r := by
+  induction ops generalizing s with
+  | nil => exact h
+  | cons op ops ih =>
+    simp only [cleanFor, List.all_cons, Bool.and_eq_true, Option.isNone_iff_eq_none] at hc
+    simp only [run, List.foldl_cons]
+    exact ih (step s op) (by simpa [cleanFor] using hc.2) (step_preserves s op c hc.1 h)
+
+theorem compSync_init (c : Comp) : CompSync c ({} : LState) ({} : RState) := by
+  cases c <;> simp [CompSync, AMap.get]
+
+/-! ## decidable forms -/
+
+theorem agreeB_iff {A B : Type} (f : A → B → Bool) (a : Option A) (b : Option B) :
+    agreeB f a b = true ↔ ∀ x y, a = some x → b = some y → f x y = true := by
+  cases a <;> cases b <;> simp [agreeB]
+
+theorem compSyncB_iff (c : Comp) (l : LState) (r : RState) : compSyncB c l r = true ↔ CompSync c l r := by
+  cases c with
+  | wset =>
+    simp only [compSyncB, keysOf, CompSync]
+    rw [forall_keys_iff l.workers r.workers (fun a b => a.map LWorker.static == b.map RWorker.static) (by rfl)]
+    simp
+  | status =>
+    simp only [compSyncB, keysOf, CompSync]
+    rw [forall_keys_iff l.workers r.workers (agreeB _) (by rfl)]
+    simp only [agreeB_iff, beq_iff_eq]
+  | book =>
+    simp only [compSyncB, keysOf, CompSync]
+    rw [forall_keys_iff l.workers r.workers (agreeB _) (by rfl)]
+    simp only [agreeB_iff, Bool.and_eq_true, beq_iff_eq, and_assoc]
+  | groups =>
+    simp only [compSyncB, CompSync]
+    rw [forall_keys_iff l.groups r.groups (fun a b => a == b) (by rfl)]
+    simp
+  | conns =>
+    simp only [compSyncB, CompSync]
+    rw [forall_keys_iff l.connectors r.connectors (fun a b => a == b) (by rfl)]
+    simp
+  | policy => simp [compSyncB, CompSync]
+
+theorem noRevertB_iff (c : Comp) (l l' : LState) : noRevertB c l l' = true ↔ NoRevert c l l' := by
+  cases c with
+  | wset =>
+    simp only [noRevertB, NoRevert]
+    rw [forall_keys_iff l.workers l'.workers (fun a b => b.map LWorker.static == a.map LWorker.static) (by rfl)]
+    simp
+  | status =>
+    simp only [noRevertB, NoRevert]
+    rw [forall_keys_iff l.workers l'.workers (agreeB _) (by rfl)]
+    simp only [agreeB_iff, beq_iff_eq]
+  | book =>
+    simp only [noRevertB, NoRevert]
+    rw [forall_keys_iff l.workers l'.workers (agreeB _) (by rfl)]
+    simp only [agreeB_iff, Bool.and_eq_true, beq_iff_eq, and_assoc]
+  | groups =>
+    simp only [noRevertB, NoRevert]
+    rw [forall_keys_iff l.groups l'.groups (fun a b => b == a) (by rfl)]
+    simp
+  | conns =>
+    simp only [noRevertB, NoRevert]
+    rw [forall_keys_iff l.connectors l'.connectors (fun a b => b == a) (by rfl)]
+    simp
+  | policy => simp [noRevertB, NoRevert]
+
+end Varpulis.RaftSync
